@@ -74,7 +74,7 @@ func drawBytes(t *rapid.T, lo, hi int) []byte {
 }
 func drawByte(t *rapid.T) byte { return byte(uni64(t)) }
 
-func pow2(n uint) *big.Int { return new(big.Int).Lsh(big.NewInt(1), n) }
+func pow2(n uint) *big.Int     { return new(big.Int).Lsh(big.NewInt(1), n) }
 func sub1(x *big.Int) *big.Int { return new(big.Int).Sub(x, big.NewInt(1)) }
 func add1(x *big.Int) *big.Int { return new(big.Int).Add(x, big.NewInt(1)) }
 
@@ -762,13 +762,13 @@ func (b *pb) stmtJumps() {
 // tiny runtime programs a CREATE may deploy (≤ 32 bytes each)
 var runtimeTable = [][]byte{
 	{},
-	{0x60, 0x00, 0x35, 0x60, 0x00, 0x55, 0x00},                   // SSTORE(0, CALLDATALOAD(0)); STOP
+	{0x60, 0x00, 0x35, 0x60, 0x00, 0x55, 0x00},                         // SSTORE(0, CALLDATALOAD(0)); STOP
 	{0x60, 0x00, 0x54, 0x60, 0x00, 0x52, 0x60, 0x20, 0x60, 0x00, 0xf3}, // return SLOAD(0)
-	{0x60, 0x2a, 0x60, 0x00, 0x55, 0x60, 0x00, 0x60, 0x00, 0xfd},  // SSTORE then REVERT
-	{0x33, 0xff},                         // SELFDESTRUCT(CALLER)
-	{0xfe},                               // INVALID
+	{0x60, 0x2a, 0x60, 0x00, 0x55, 0x60, 0x00, 0x60, 0x00, 0xfd},       // SSTORE then REVERT
+	{0x33, 0xff}, // SELFDESTRUCT(CALLER)
+	{0xfe},       // INVALID
 	{0x36, 0x60, 0x00, 0x60, 0x00, 0x37, 0x36, 0x60, 0x00, 0xf3}, // echo call data
-	{0x34, 0x60, 0x01, 0x55, 0x30, 0x31, 0x60, 0x02, 0x55, 0x00},  // SSTORE(1,CALLVALUE) SSTORE(2,SELFBALANCE)
+	{0x34, 0x60, 0x01, 0x55, 0x30, 0x31, 0x60, 0x02, 0x55, 0x00}, // SSTORE(1,CALLVALUE) SSTORE(2,SELFBALANCE)
 }
 
 // genInit returns init code for CREATE/CREATE2.
